@@ -39,16 +39,26 @@ CONFIG_BUDGET_S = {"quick": 900, "thorough": 3600}
 
 # --------------------------------------------------------------------------- source transformation
 
+def _bisection_names(node):
+    """(lo, hi) if node is `while lo < hi:` over two plain names (the binary search of poisson, whatever its variables are called)"""
+    t = node.test
+    if isinstance(t, ast.Compare) and len(t.ops) == 1 and isinstance(t.ops[0], ast.Lt) and isinstance(t.left, ast.Name) \
+            and isinstance(t.comparators[0], ast.Name):
+        return t.left.id, t.comparators[0].id
+    return None
+
+
 class _LoopAbstraction(ast.NodeTransformer):
     def __init__(self):
         self.count = 0
 
     def visit_While(self, node):
-        t = ast.unparse(node.test).replace(" ", "")
-        if t != "slope_min<slope_max":
+        lo_hi = _bisection_names(node)
+        if lo_hi is None or self.count:
             return node
         self.count += 1
-        havoc = ast.parse("slope_min, slope_max = __havoc__(slope_min, slope_max)").body[0]
+        lo, hi = lo_hi
+        havoc = ast.parse("%s, %s = __havoc__(%s, %s)" % (lo, hi, lo, hi)).body[0]
         once = ast.For(target=ast.Name(id="__once", ctx=ast.Store()), iter=ast.Tuple(elts=[ast.Constant(0)], ctx=ast.Load()),
                        body=node.body, orelse=[ast.Expr(ast.Call(func=ast.Name(id="__exit__", ctx=ast.Load()), args=[node.test], keywords=[]))],
                        type_comment=None)
@@ -64,7 +74,7 @@ def _transformed(ns_extra):
     tr = _LoopAbstraction()
     tree = tr.visit(tree)
     if tr.count != 1:
-        raise RuntimeError("expected exactly one `while slope_min < slope_max` loop in poisson, found %d" % tr.count)
+        raise RuntimeError("expected a `while lo < hi` bisection loop in poisson, found %d" % tr.count)
     ast.fix_missing_locations(tree)
     ns = {}
     for k, v in samp.__dict__.items():
@@ -359,14 +369,15 @@ def _progress_query():
     tree = ast.parse(textwrap.dedent(inspect.getsource(samp.poisson)))
     loop = None
     for node in ast.walk(tree):
-        if isinstance(node, ast.While) and ast.unparse(node.test).replace(" ", "") == "slope_min<slope_max":
+        if isinstance(node, ast.While) and _bisection_names(node) and loop is None:
             loop = node
     if loop is None:
         raise RuntimeError("binary-search loop not found")
+    LO, HI = _bisection_names(loop)
     F = z3.Float64()
     rm = z3.RNE()
     smin, smax = z3.FP("slope_min", F), z3.FP("slope_max", F)
-    env = {"slope_min": smin, "slope_max": smax}
+    env = {LO: smin, HI: smax}
 
     def tr(e):
         if isinstance(e, ast.Constant) and isinstance(e.value, (int, float)):
@@ -407,7 +418,7 @@ def _progress_query():
         elif isinstance(st, ast.If):
             has_break = any(isinstance(n, ast.Break) for n in ast.walk(st))
             assigns = [n for n in ast.walk(st) if isinstance(n, ast.Assign) and isinstance(n.targets[0], ast.Name)
-                       and n.targets[0].id in ("slope_min", "slope_max")]
+                       and n.targets[0].id in (LO, HI)]
             if has_break and not assigns:
                 try:
                     no_break.append(z3.Not(trb(st.test)))
@@ -419,7 +430,7 @@ def _progress_query():
                     for n in branch:
                         if isinstance(n, ast.Assign) and isinstance(n.targets[0], ast.Name):
                             e2[n.targets[0].id] = tr(n.value)
-                    finals.append((e2["slope_min"], e2["slope_max"]))
+                    finals.append((e2[LO], e2[HI]))
     if not finals:
         raise RuntimeError("no update of slope_min / slope_max found in the loop body")
     pre = z3.And(z3.Not(z3.fpIsNaN(smin)), z3.Not(z3.fpIsNaN(smax)), z3.Not(z3.fpIsInf(smax)), z3.fpGEQ(smin, z3.FPVal(0.0, F)),
